@@ -150,6 +150,7 @@ func (m *Model) untestedUse(root *ssa.Call, v ssa.Value, seen map[ssa.Value]bool
 func (m *Model) errorBranchReturns(s *Sink, rule string, fn *ssa.Function, c *ssa.Call, cnt int) {
 	v := evalValue(m, c)
 	errT := m.namedType("object", "Error")
+	var rebuilt *ssa.Call // the error was handed up as a new error object (its line is then that of another node)
 	var carries func(r ssa.Value, d int) bool
 	carries = func(r ssa.Value, d int) bool {
 		if d > 4 {
@@ -171,6 +172,7 @@ func (m *Model) errorBranchReturns(s *Sink, rule string, fn *ssa.Function, c *ss
 			return carries(x.X, d+1)
 		case *ssa.Call:
 			if errT != nil && x.Call.Signature().Results().Len() == 1 && types.Identical(x.Call.Signature().Results().At(0).Type(), types.NewPointer(errT)) {
+				rebuilt = x
 				return true // a new error object built from it
 			}
 		case *ssa.Slice:
@@ -230,6 +232,14 @@ func (m *Model) errorBranchReturns(s *Sink, rule string, fn *ssa.Function, c *ss
 	}
 	if region == 0 {
 		return // returned untested, or tested in a way the facts do not show: the use rule above decides
+	}
+	if m.errPassStrict {
+		k2 := fmt.Sprintf("%s|the error of a failing Eval #%d keeps its own line", fnKey(fn), cnt)
+		if rebuilt != nil {
+			s.Violation(rule, k2, m.InstrPos(rebuilt), "%s answers the failure of e.Eval(%s) with a new error object (%s) instead of handing the error up as it is: the new error carries the line of the node it is built from — a fault inside the body or a slot of a construct is reported on the line of the construct", fnKey(fn), valueDesc(c.Call.Args[1]), valueDesc(rebuilt))
+		} else if bad == nil {
+			s.OK(rule, k2, m.InstrPos(c), "on the isError side the error object itself is what is returned")
+		}
 	}
 	key := fmt.Sprintf("%s|a failing Eval #%d fails the construct", fnKey(fn), cnt)
 	if bad == nil {
